@@ -9,7 +9,7 @@ Res1(h, lm) == [name |-> "r", parent |-> 0, leaf |-> TRUE, effN |-> 1, effD |-> 
          leaves |-> <<>>, tz |-> << <<0, 0>> >>, limits |-> DLim(h), lmul |-> lm]
 Res2(en, lm) == [name |-> "q", parent |-> 0, leaf |-> TRUE, effN |-> en, effD |-> 1, cal |-> "hours", hours |-> Aft,
          leaves |-> <<>>, tz |-> << <<0, 0>> >>, limits |-> <<>>, lmul |-> lm]
-Dep(p, g, os) == [p |-> p, onstart |-> os, gap |-> g, clone |-> FALSE, maxgap |-> FALSE, gaplen |-> FALSE]
+Dep(p, g, os) == [p |-> p, onstart |-> os, gap |-> g, clone |-> FALSE, maxgap |-> FALSE, gaplen |-> FALSE, glen |-> 0]
 Names == <<"c", "a", "b", "d">>
 Task(i, par, eff, pr, al, deps, pin) == [name |-> Names[i], parent |-> par, leaf |-> TRUE, seq |-> i, prio |-> pr,
      effort |-> eff, effortExact |-> TRUE, milestone |-> FALSE, other |-> FALSE, deps |-> deps, alloc |-> al, alt |-> <<>>,
